@@ -1,6 +1,6 @@
 //! Verification shim: sequential, heap-free executable specification of crossbeam_deque::Injector (subset used).
 use std::cell::UnsafeCell;
-pub const MAXQ: usize = 8;
+pub const MAXQ: usize = 6;
 pub enum Steal<T> { Empty, Success(T), Retry }
 pub struct Inner<T> { pub buf: [Option<T>; MAXQ], pub head: usize, pub len: usize }
 pub struct Injector<T> { pub q: UnsafeCell<Inner<T>> }
@@ -8,7 +8,7 @@ unsafe impl<T: Send> Send for Injector<T> {}
 unsafe impl<T: Send> Sync for Injector<T> {}
 impl<T> std::fmt::Debug for Injector<T> { fn fmt(&self, f: &mut std::fmt::Formatter<'_>) -> std::fmt::Result { f.write_str("Injector") } }
 impl<T> Injector<T> {
-    pub fn new() -> Self { Injector { q: UnsafeCell::new(Inner { buf: [None, None, None, None, None, None, None, None], head: 0, len: 0 }) } }
+    pub fn new() -> Self { Injector { q: UnsafeCell::new(Inner { buf: [None, None, None, None, None, None], head: 0, len: 0 }) } }
     #[allow(clippy::mut_from_ref)]
     pub fn inner(&self) -> &mut Inner<T> { unsafe { &mut *self.q.get() } }
     pub fn push(&self, item: T) {
